@@ -218,6 +218,42 @@ func execC17(t *testing.T, sc *world.Scenario) (*oracle.Result, string) {
 			return r, ""
 		}
 	}
+	// structural edits of large files: whole blocks cut off, dropped, repeated or swapped at
+	// the sizes a chunked encryption format would use (2^k bytes plus nonce / tag overhead)
+	if len(orig) > 1100 {
+		for _, chunk := range []int{1024, 4096, 16384, 32768, 65536} {
+			for _, over := range []int{0, 12, 16, 28} {
+				seg := chunk + over
+				if seg >= len(orig) {
+					continue
+				}
+				for cut := seg; cut < len(orig); cut += seg {
+					if !check(fmt.Sprintf("truncate-at-%d+%d", chunk, over), cut, append([]byte(nil), orig[:cut]...)) {
+						return r, ""
+					}
+					if cut > 4*seg {
+						break
+					}
+				}
+				// drop the first block / repeat it / swap the first two
+				if !check(fmt.Sprintf("drop-block-%d+%d", chunk, over), 0, append([]byte(nil), orig[seg:]...)) {
+					return r, ""
+				}
+				dup := append(append([]byte(nil), orig[:seg]...), orig...)
+				if !check(fmt.Sprintf("repeat-block-%d+%d", chunk, over), 0, dup) {
+					return r, ""
+				}
+				if 2*seg <= len(orig) {
+					sw := append([]byte(nil), orig[seg:2*seg]...)
+					sw = append(sw, orig[:seg]...)
+					sw = append(sw, orig[2*seg:]...)
+					if !bytes.Equal(sw, orig) && !check(fmt.Sprintf("swap-blocks-%d+%d", chunk, over), 0, sw) {
+						return r, ""
+					}
+				}
+			}
+		}
+	}
 	for _, ext := range [][]byte{{0}, bytes.Repeat([]byte{0xaa}, 16), orig} {
 		if !check("append", len(ext), append(append([]byte(nil), orig...), ext...)) {
 			return r, ""
@@ -309,8 +345,8 @@ func TestC17Tamper(t *testing.T) {
 		if gen.Pct(rt, "exact", 40) {
 			n = rapid.IntRange(0, maxLen).Draw(rt, "vlenx")
 		}
-		if gen.Pct(rt, "big", 10) {
-			n = gen.Pick(rt, "vbig", 5000, 70000)
+		if gen.Pct(rt, "big", 15) {
+			n = gen.Pick(rt, "vbig", 5000, 70000, 140000, 200000)
 		}
 		return mkC17(c17Case{Kind: "tamper", Path: gen.Pick(rt, "path", c17Paths...), KeyLen: gen.Pick(rt, "klen", 16, 24, 32),
 			ValLen: n, Seed: uint64(rapid.IntRange(1, 1<<30).Draw(rt, "seed"))})
